@@ -46,7 +46,7 @@ Definition dataset_rows : list row :=
        match the "coverage" t with Some c => match ft_kids c with [] => true | _ => false end | None => true end);
     (s "DATATABLE_MISSING", fun _ t => match children_named "dataTable" t with [] => true | _ => false end);
     (s "INTELLECTUAL_RIGHTS_MISSING", fun _ t =>
-       match the "intellectualRights" t with Some r => negb (has_text r) | None => true end);
+       match the "intellectualRights" t with Some r => no_text r | None => true end);
     (s "KEYWORDS_MISSING", fun _ t => match children_named "keywordSet" t with [] => true | _ => false end);
     (s "KEYWORDS_INSUFFICIENT", fun _ t =>
        match children_named "keywordSet" t with
